@@ -8,6 +8,7 @@ package main
 
 import (
 	"fmt"
+	"os"
 	"time"
 
 	"verif/engine"
@@ -59,14 +60,16 @@ func functionalScenarios(tier string) []engine.Scenario {
 	var scs []engine.Scenario
 	for _, b := range bases(tier) {
 		b := b
-		// deviation bound: quick = 2 at LogN 8, 1 at LogN 9; thorough = 2 everywhere, 3 for the fully packed LogN 8 base
+		// deviation bound. quick: 1 everywhere, 2 for the fully packed and the single-slot base at LogN 8.
+		// thorough: 2 at LogN 8 and 9 (3 for the fully packed LogN 8 base), at LogN 10 1 and 2 for the fully packed base.
+		full := b.logSlots == b.logN-1
 		bound := 1
 		switch {
-		case tier == "quick" && b.logN == 8:
+		case tier == "quick" && b.logN == 8 && (full || b.ctGap != 0):
 			bound = 2
-		case tier == "thorough" && b.logN == 8 && b.logSlots == b.logN-1:
+		case tier == "thorough" && b.logN == 8 && full:
 			bound = 3
-		case tier == "thorough":
+		case tier == "thorough" && (b.logN < 10 || full):
 			bound = 2
 		}
 		mk := func(first, alt int) engine.Scenario {
@@ -146,6 +149,11 @@ func scenarios(tier string) []engine.Scenario {
 }
 
 func main() {
+	quickBudget, thoroughBudget := 150*time.Second, 25*time.Minute
+	if os.Getenv("VERIF_C18_CALIBRATE") != "" {
+		// recording runs must visit every leaf, however loaded the machine is
+		quickBudget, thoroughBudget = 6*time.Hour, 6*time.Hour
+	}
 	engine.Main(engine.Check{
 		ID:    "C18",
 		Level: "exploration",
@@ -162,8 +170,8 @@ func main() {
 			"EvkDenseToSparse is the key protected only by the ephemeral secret (keys.go: generated by the sparse key generator with skSparse as output key)",
 		},
 		Scenarios:      scenarios,
-		QuickBudget:    140 * time.Second,
-		ThoroughBudget: 25 * time.Minute,
+		QuickBudget:    quickBudget,
+		ThoroughBudget: thoroughBudget,
 		Expect: func(tier string) []string {
 			e := []string{"axis=default", "axis=copy", "calibration=hit", "dft=sparse=true", "dft=sparse=false",
 				"mod1type=0", "mod1type=1", "mod1type=2", "mod1da=0", "mod1da=1", "mod1da=2", "mod1da=3", "mod1inv=0", "mod1inv=5", "mod1inv=7",
